@@ -502,8 +502,9 @@ def run():
                       rule='all 1<=p<=n<=%d (one random rank each, full mpi tables) + random N-d layouts + random accepted '
                            'handler configurations on <=%d simulated ranks; non-trivial = some p>1' % (box, 6 if quick else 12),
                       extra={'exhaustive_box': box, 'exprt': info_t if ok_t else {'broken': info_t}},
-                      uncovered=['buffer sufficiency is proved for the first layout and for the source layout of every enumerated pair (c02_pair_bufsize_ge_size); '
-                                 'for the destination layout of a pair / the reverse orientation it is exercised (arrays of exactly bufferSize in every transpose), not proved',
+                      uncovered=['buffer sufficiency is proved for the first layout and, for every enumerated pair, for both layouts and both orientations '
+                                 'of the step (c02_bufsize_both_orientations, c02_bufsize_both_orientations_handler); a layout that is neither the first nor '
+                                 'in any compatible pair cannot occur in a handler whose constructor succeeds (all layouts connected) - that implication is not formalised',
                                  ])
 
 
